@@ -555,6 +555,9 @@ def run(ctx, out, tier):
     else:
         out.inst("C01.detect", 0, 4)
     shared.check_scan_state(ctx, out, "C01.scanstate")
+    # whether a change touches a block is decided with the range kind the block model declares (shared with C02)
+    from rules.C02 import check_inclusive
+    check_inclusive(ctx, out, rule="C01.incl")
     return meta()
 
 
